@@ -80,6 +80,7 @@ type sim struct {
 	expect       map[int]gpos // what such a group must come back as
 	dormantDirty bool         // SetAppendedSeq ran while groups were dormant (it moves them too)
 	appearOK     int          // the group the current race2 operation creates (-1 = none)
+	wok          *wokenCall   // the Consume call held before the lock of consume() (at most one)
 }
 
 // parkedCall is a Consume call running on its own goroutine, blocked in Queue.NotEmpty.
@@ -200,6 +201,13 @@ func (s *sim) oracle(kind string, g int, n int64, res string, b, a snapshot, met
 	if kind == "syncreset" {
 		kind = "setapp" // Sync ‖ index reset: the reset is ordered after the Sync that was in flight
 	}
+	if kind == "wbegin" {
+		if res != "woken" {
+			kind = "consume" // the call returned without being held: judged as any Consume
+		} else if a.String() != b.String() {
+			s.fail("held-consume-changed-positions", "a Consume call held before the lock of consume(): %s -> %s", b, a)
+		}
+	}
 	syncInside := kind == "acksync" || kind == "syncack" // an Ack and Sync(s) in one operation
 	// (4)
 	if a.ack > a.app {
@@ -304,7 +312,7 @@ func (s *sim) oracle(kind string, g int, n int64, res string, b, a snapshot, met
 				s.fail("consume-missed-message", "consumed %d appended %d but Consume returned -1", bp.c, b.app)
 			}
 		}
-	case "cend", "appendwake", "pausewake":
+	case "cend", "appendwake", "pausewake", "wend":
 		// (2) for a Consume call that was parked while other goroutines moved the positions: what it
 		// hands out is consumed+1 AT THE TIME IT RETURNS (b is the snapshot taken after the last
 		// operation of the other goroutine, before the wake-up), and that becomes the consumed position
@@ -331,7 +339,7 @@ func (s *sim) oracle(kind string, g int, n int64, res string, b, a snapshot, met
 			if ap != bp {
 				s.fail("parked-empty-consume-changed-positions", "%s: %v -> %v", kind, bp, ap)
 			}
-			if kind != "pausewake" && !s.paused[g] && bp.c+1 <= a.app {
+			if kind != "pausewake" && (!s.paused[g] || kind == "wend") && bp.c+1 <= a.app {
 				s.fail("parked-consume-missed-message", "%s: consumed %d appended %d but the woken Consume returned -1", kind, bp.c, a.app)
 			}
 		}
@@ -1535,6 +1543,10 @@ func (a area) Run(c *core.Ctx) error {
 				s.caseMsyncFixed(rng)
 			case "msync":
 				s.caseMsyncRandom(rng)
+			case "woken-fixed":
+				s.caseWokenFixed(rng)
+			case "woken":
+				s.caseWokenRandom(rng)
 			case "lazy-fixed":
 				s.caseLazyFixed(rng)
 			case "fault-fixed":
@@ -1548,6 +1560,7 @@ func (a area) Run(c *core.Ctx) error {
 		if s.nops >= 5 && !s.dead {
 			c.NonTrivial()
 		}
+		s.releaseWoken()
 		s.release()
 		s.close()
 		os.RemoveAll(dir)
@@ -1585,6 +1598,8 @@ func caseKind(i int, tier string, rng *rand.Rand) string {
 		return "round8-fixed"
 	case 12:
 		return "msync-fixed"
+	case 13:
+		return "woken-fixed"
 	}
 	if tier == "thorough" && i%40 == 7 {
 		return "pages"
@@ -1598,7 +1613,9 @@ func caseKind(i int, tier string, rng *rand.Rand) string {
 		return "round8"
 	case r < 36:
 		return "msync"
-	case r < 58:
+	case r < 43:
+		return "woken"
+	case r < 61:
 		return "random"
 	case r < 70:
 		return "random-early-groups" // all groups created before the first append, none stopped
